@@ -277,6 +277,26 @@ pub fn random_step(w: &mut World, sc: &Scenario, rec: &mut Recorder) {
     let pool = sc.pool.clone();
     let pos = open_positions(w);
     let v2 = sc.v2_only || w.rng.gen_bool(0.5);
+    if w.mints["A"].prog == TokProg::T22 && w.rng.gen_bool(0.04) {
+        // transfer-fee schedule changes: a new fee takes effect two epochs later; epochs advance
+        if w.rng.gen_bool(0.5) {
+            let m = pick(w, &["A", "B"]);
+            let mi = w.mints[m].clone();
+            let has_fee = crate::project::t22_extension_types(&w.bank.accts[&mi.key].data).contains(&1);
+            if has_fee {
+                let bps = pick(w, &[0u16, 1, 50, 300, 5000, 10000]);
+                let max = pick(w, &[0u64, 10, 100_000, u64::MAX]);
+                let inst = spl_token_2022::extension::transfer_fee::instruction::set_transfer_fee(&spl_token_2022::ID, &mi.key, &mi.auth, &[], bps, max).unwrap();
+                let ix = crate::world::Ix { name: "token_set_transfer_fee".into(), accts: "", metas: inst.accounts.clone(), extra: vec!["mint".into(), "authority".into()], data: inst.data.clone(), args: json!({"mint": m, "bps": bps, "max": nu(max as u128)}), program: inst.program_id };
+                rec.exec(w, &ix, true, json!("setup"));
+            }
+        } else {
+            let e = crate::svm::epoch() + w.rng.gen_range(1..3);
+            crate::svm::set_epoch(e);
+            rec.tick_clock(w, 1);
+        }
+        return;
+    }
     if sc.rewards && w.rng.gen_bool(0.22) {
         reward_step(w, sc, rec, &pos, v2);
         return;
